@@ -14,6 +14,7 @@ EXPLANATION = (
     "literals tested equal the ones the behavior decorator accepts; register() defaults the mode only if none is set or inherited. "
     'Also decided: the instance tables are created per daemon / per connection, read and written under the same key, a fresh instance is stored before it is returned, close() drops session instances on every path, _getInstance runs exactly for registered classes, the creator is tested by identity with None. '
     "Also decided (round 7): Only the behavior decorator and register()'s guarded default write a class's instance mode. "
+    'Also decided (round 9): The behavior decorator stores the (mode, creator) pair it was given. '
     "Not decided: identity across real histories/schedules (follows only under the interpreter's lock semantics)."
 )
 
